@@ -217,7 +217,9 @@ def rand_doc(rng, loops_in_last_block_only=True):
     doc = {}
     for b in range(nb):
         last = b == nb - 1
-        doc[["crystal", "b2", "III"][b]] = rand_block(rng, with_loops=last or not loops_in_last_block_only)
+        # block names: plain ones and names that contain the reserved words of the format as substrings (they are ordinary characters inside a name)
+        pool = (["crystal", "b2", "III"], ["metadata_1", "data_set_2", "x_loop_3"], ["global_", "my_data_", "save_x"], ["DATA_upper", "1_data_a", "loop_"])[int(rng.integers(0, 4))]
+        doc[pool[b]] = rand_block(rng, with_loops=last or not loops_in_last_block_only)
     return doc
 
 
